@@ -303,11 +303,15 @@ class FileSaver(strax.Saver):
         self.prefix = dirname_to_prefix(dirname)
         self.metadata_json = RUN_METADATA_PATTERN % self.prefix
 
-        if os.path.exists(dirname):
-            print(f"Removing data in {dirname} to overwrite")
-            shutil.rmtree(dirname)
         if os.path.exists(self.tempdirname):
             print(f"Removing old incomplete data in {self.tempdirname}")
+            shutil.rmtree(self.tempdirname)
+        if os.path.exists(dirname):
+            print(f"Removing data in {dirname} to overwrite")
+            # Deleting a directory is not atomic. Move the old data out of the
+            # way first: if we die half-way, a directory without metadata
+            # under the final name would count as corrupted data forever.
+            os.rename(dirname, self.tempdirname)
             shutil.rmtree(self.tempdirname)
         os.makedirs(self.tempdirname)
         self._flush_metadata()
